@@ -76,7 +76,28 @@ def gen_worklist_cfg(rng, device=None, split_bias=0.5):
         cfg["flavour"] = "subclass"
     elif r2 < 0.14 and device == "evo":
         cfg["flavour"] = "deprecated_worklist"
+    elif r2 < 0.22:
+        cfg["flavour"] = "configured_by_assignment"
     return cfg
+
+
+def sync_twins(wt):
+    """A replica built from the same initial-volume array has, by construction, the same initial volumes
+    (call this after editing the initial volumes / names of a generated worktable)."""
+    import copy
+
+    by = {d["name"]: d for d in wt}
+    for d in wt:
+        src = by.get(d.get("shares_initial_array_with"))
+        if src is not None:
+            d["initial"] = copy.deepcopy(src["initial"])
+            if src.get("names") is None:
+                d["names"] = None
+            else:
+                d["names"] = {k: (v.replace(src["name"] + "@", d["name"] + "@") if isinstance(v, str) else v)
+                              for k, v in src["names"].items()}
+            d["naming"] = src.get("naming")
+    return wt
 
 
 def gen_worktable(rng, n=None, vclass="int", limits=None, need_trough=False, naming="explicit", small=False):
@@ -89,6 +110,21 @@ def gen_worktable(rng, n=None, vclass="int", limits=None, need_trough=False, nam
         lim = limits or rng.choice(["loose", "loose", "tight", "wide"])
         fill = "mixed"
         out.append(gen_labware(rng, f"L{i}", kind=kind, vclass=vclass, fill=fill, limits=lim, naming=naming, small=small))
+    # a replica of a plate, built by the caller from the very same initial-volume array
+    plates = [d for d in out if d["kind"] == "plate"]
+    if plates and rng.random() < 0.12:
+        import copy
+
+        d0 = rng.choice(plates)
+        d1 = copy.deepcopy(d0)
+        d1["name"] = f"L{len(out)}"
+        d1["grid_site"] = [10 + 3 * len(out), 1 + len(out)]
+        if d1.get("names"):
+            d1["names"] = {k: v.replace(d0["name"] + "@", d1["name"] + "@") for k, v in d1["names"].items()}
+        d0["array_is_shared"] = True
+        d1["shares_initial_array_with"] = d0["name"]
+        d1.pop("legacy", None)
+        out.append(d1)
     # rack labels must be distinct; make some of them "interesting" (spaces, latin-1, 32 chars)
     if rng.random() < 0.3:
         fancy = rng.choice(["MTP 96-well", "Tröge_µ", "R" * 32, "rack.1"])
@@ -97,6 +133,9 @@ def gen_worktable(rng, n=None, vclass="int", limits=None, need_trough=False, nam
         d["name"] = fancy
         if d.get("names"):
             d["names"] = {k: v.replace(old + "@", fancy + "@") for k, v in d["names"].items()}
+        for other in out:
+            if other.get("shares_initial_array_with") == old:
+                other["shares_initial_array_with"] = fancy
     return out
 
 
